@@ -61,6 +61,8 @@ def tla_value(v):
     if isinstance(v, bool):
         return "TRUE" if v else "FALSE"
     if isinstance(v, int):
+        if abs(v) >= 1 << 31:
+            raise MachineryError("integer %d does not fit TLC's 32-bit integers" % v)
         return str(v) if v >= 0 else "(%d)" % v
     if isinstance(v, str):
         return json.dumps(v)
